@@ -68,6 +68,14 @@ class GenoFrom:
             if rv["k"] == "aggregate" and rv["akind"] == "adt" and rv["adt"] == GENO_RESULT:
                 if variant is None or rv["variant"] == variant:
                     out.append((b, rv))
+        # a tuple variant used as a function: `opt.map_or(default, Result::Genotype)` / `opt.map(Result::Genotype)` constructs the
+        # variant (inside the std combinator) from the Option's payload, at the block of that call
+        for b, t in f.calls():
+            for a in t["args"][1:]:
+                if a["k"] == "const" and (a.get("fn") or "").startswith(GENO_RESULT + "::"):
+                    v = a["fn"].rsplit("::", 1)[-1]
+                    if (variant is None or v == variant) and (t["callee"].get("path") or "").startswith("core::option::Option::<T>::"):
+                        out.append((b, {"k": "aggregate", "akind": "adt", "adt": GENO_RESULT, "variant": v, "ops": [t["args"][0]], "via": callee_name(t["callee"])}))
         return out
 
     def bounds_for(self, b):
